@@ -349,20 +349,52 @@ def run_xpath(unit, tier, acc):
         for (m, d) in ((1, 1), (2, 29), (12, 31)):
             if d > TL.month_len(a, m):
                 continue
-            for t in (TIMES[1], TIMES[2]):
+            for t in (TIMES[1], TIMES[2], (0, 0, Fraction(1005, 1000)), (1, 2, Fraction(3000001, 1000000))):
                 for tz in TZS:
                     s = dt_string(y, m, d, t, tz)
                     case = {'kind': 'xpath', 'ver': ver, 's': s}
                     acc.case(True)
                     want = {'year': y, 'month': m, 'day': d, 'hours': t[0], 'minutes': t[1], 'seconds': t[2]}
                     for c in comps:
-                        r = ev('%s-from-dateTime(xs:dateTime($s))' % c, s=s)
-                        acc.ev()
+                        srcs = ['%s-from-dateTime(xs:dateTime($s))' % c]
+                        if c in ('year', 'month', 'day'):
+                            srcs.append('%s-from-date(xs:date(xs:dateTime($s)))' % c)
+                        else:
+                            srcs.append('%s-from-time(xs:time(xs:dateTime($s)))' % c)
+                        for src in srcs:
+                            r = ev(src, s=s)
+                            acc.ev()
+                            acc.cmp()
+                            try:
+                                ok = r[0] == 'value' and Fraction(str(r[1])) == want[c]
+                            except Exception:  # noqa
+                                ok = False
+                            acc.outcome('component:' + ('ok' if ok else 'bad'))
+                            if not ok:
+                                viol(acc, 'component-%s' % c, ver, y, src.replace('$s', repr(s)), {'expected': str(want[c]), 'observed': repr(r)[:100]}, case)
+                    # the timezone component of the three types: a dayTimeDuration of tz minutes, or empty
+                    for src in ('timezone-from-dateTime(xs:dateTime($s))', 'timezone-from-date(xs:date(xs:dateTime($s)))', 'timezone-from-time(xs:time(xs:dateTime($s)))'):
+                        r = ev('for $z in %s return $z div xs:dayTimeDuration("PT1M")' % src, s=s)
+                        r0 = ev('count(%s)' % src, s=s)
+                        acc.ev(2)
                         acc.cmp()
-                        ok = r[0] == 'value' and Fraction(str(r[1])) == want[c]
-                        acc.outcome('component:' + ('ok' if ok else 'bad'))
+                        if tz is None:
+                            ok = r0 == ('value', 0)
+                        else:
+                            try:
+                                ok = r0 == ('value', 1) and r[0] == 'value' and Fraction(str(r[1][0] if isinstance(r[1], list) else r[1])) == tz
+                            except Exception:  # noqa
+                                ok = False
                         if not ok:
-                            viol(acc, 'component-%s' % c, ver, y, '%s-from-dateTime(%s)' % (c, s), {'expected': str(want[c]), 'observed': repr(r)[:100]}, case)
+                            viol(acc, 'component-timezone', ver, y, src.replace('$s', repr(s)), {'expected_minutes': tz, 'observed': repr((r0, r))[:120]}, case)
+                    # a value bound to a variable is the same after it has been adjusted (adjust-* returns a new value)
+                    for adj in ('adjust-dateTime-to-timezone($v, ())', 'adjust-dateTime-to-timezone($v, xs:dayTimeDuration("PT330M"))', 'adjust-dateTime-to-timezone($v)'):
+                        r = ev('let $v := xs:dateTime($s) return (string(%s), string($v), $v eq xs:dateTime($s))' % adj, tzc='+05:00', s=s)
+                        r1 = ev('string(xs:dateTime($s))', s=s)
+                        acc.ev(2)
+                        acc.cmp()
+                        if not (r[0] == 'value' and isinstance(r[1], list) and len(r[1]) == 3 and r1[0] == 'value' and r[1][1] == r1[1] and r[1][2] is True):
+                            viol(acc, 'adjust-modifies-its-operand', ver, y, 'let $v := xs:dateTime(%r) return (%s, $v)' % (s, adj), {'value_before': repr(r1)[:60], 'observed': repr(r)[:160]}, case)
                     # adjust to every timezone: the instant is preserved (or the timezone is just attached when none)
                     local, utc = TL.instant(y, m, d, t[0], t[1], t[2], tz, ver)
                     for tz2 in (0, 330, -840, 14 * 60):
